@@ -69,11 +69,16 @@ pub fn run(args: &Args) -> Report {
             // all config / public-input scalars, a sample of the rest
             let (mut keep, mut rest): (Vec<Edit>, Vec<Edit>) = leaf_edits.into_iter().partition(|e| {
                 let c = edit_class(e);
-                c.contains(" config.") || (c.contains(" public_input.") && !c.contains("main_page") && !c.contains("dynamic_params")) || c.contains("nonce")
+                // the dynamic layout's switches (builtin flags, row ratios, component step, column counts)
+                // steer loops and divisions: always run, like the configuration numbers
+                let dyn_switch = matches!(e, Edit::Set(p, ..) if { let ps = mutate::path_str(p); ps.contains("dynamic_params.uses_") || (ps.contains("dynamic_params.") && ps.ends_with("row_ratio")) || ps.ends_with("cpu_component_step") || ps.contains("num_columns_") });
+                c.contains(" config.") || (c.contains(" public_input.") && !c.contains("main_page") && !c.contains("dynamic_params")) || c.contains("nonce") || dyn_switch
             });
             // quick runs every honest proof of the build: sample both groups
             rng.shuffle(&mut keep);
+            let (dynk, mut keep): (Vec<Edit>, Vec<Edit>) = keep.into_iter().partition(|e| edit_class(e).contains("dynamic_params"));
             keep.truncate(200);
+            keep.extend(dynk);
             rng.shuffle(&mut rest);
             rest.truncate(100);
             keep.extend(rest);
